@@ -270,7 +270,18 @@ class HeapMixin:
         if isinstance(obj, SymAny):
             return self.any_subscript(obj, key, fr)
         if isinstance(obj, SymBytes):
-            raise Unsupported("index into payload bytes")
+            # payload bytes are abstracted by identity and length: indexing gives IndexError out
+            # of range, otherwise a byte value that is a function of (payload, position)
+            if isinstance(key, slice):
+                raise Unsupported("slice of payload bytes")
+            k = z3_of_int(key)
+            n = obj.n
+            if not self.ctx.branch(z3.And(k < n, k >= -n), f"payload-index-in-range@{fr.line}"):
+                raise mk_exc(IndexError, "index out of range", where=fr.where())
+            byte_at = z3.Function("payload_byte_at", obj.t.sort(), z3.IntSort(), z3.IntSort())
+            v = byte_at(obj.t, z3.If(k >= 0, k, n + k))
+            self.ctx.assume(z3.And(v >= 0, v <= 255))
+            return mk_int(v)
         if isinstance(obj, (int, SymInt, bool, SymBool, float)):
             raise mk_exc(TypeError, "object is not subscriptable", where=fr.where())
         if isinstance(obj, type):  # typing generics like trio.open_memory_channel[T]
@@ -466,6 +477,8 @@ class HeapMixin:
     # ============================================================== membership
     def contains(self, container, item, fr):
         ctx = self.ctx
+        if type(container).__name__ == "LazySetComp":
+            return container.contains(self, item).e
         if isinstance(container, SymOpt):
             if fr.spec:
                 r = self.contains(container.value, item, fr)
@@ -517,6 +530,14 @@ class HeapMixin:
                 return z3.Contains(seq.e, z3.Unit(str_to_z3(item)))
             if seq.elem == "pair" and isinstance(item, tuple):
                 return z3.Contains(seq.e, z3.Unit(Pair.mk(str_to_z3(item[0]), str_to_z3(item[1]))))
+        if isinstance(container, SymBytes) and isinstance(item, (bytes, SymStr)) and kind_of_strlike(item) == "bytes":
+            # payload bytes are abstract: whether they contain a given byte string is an
+            # uninterpreted predicate of (payload, needle); the empty payload contains only b''
+            f = z3.Function("payload_contains", container.t.sort(), z3.StringSort(), z3.BoolSort())
+            needle = str_to_z3(item)
+            r = f(container.t, needle)
+            ctx.assume(z3.Implies(z3.And(container.n == 0, z3.Length(needle) > 0), z3.Not(r)))
+            return r
         if isinstance(container, SObj):
             model = self.model_for(container.cls)
             if model is not None and hasattr(model, "m___contains__"):
